@@ -905,3 +905,74 @@ func c15PutAllGiven(c *Ctx) {
 		c.Fail(rule, "anchor", token.NoPos, "no per-element put in a loop of a store's Put… method found")
 	}
 }
+
+// ---- C09/C15/C02 (after round-6 seed C09-p) ------------------------------------------------------------------------
+
+// c09CtxErrRecorded (CTX-ERR-RECORDED): thread.Parallelize is what storage.Copy and the module store use; the jobs they
+// hand in do not look at the context themselves. When the context ends, Parallelize stops handing out jobs - and must
+// say so: a caller that gets nil goes on to write the marker that declares a half-copied entry complete. Wherever
+// Parallelize records ctx.Err(), it does so whenever it gets there: the recording is not subject to a further
+// condition (such as "no job has been launched yet").
+func c09CtxErrRecorded(c *Ctx) {
+	const rule = "CTX-ERR-RECORDED"
+	c.Rule(rule, "thread.Parallelize reports the context's error whenever it stops dispatching because of it", 1)
+	p := c.P
+	fr := p.Func("private/pkg/thread", "Parallelize")
+	if fr == nil || fr.Obj == nil {
+		c.Fail(rule, "anchor", token.NoPos, "thread.Parallelize not found")
+		return
+	}
+	n := 0
+	for _, f := range allSSAFuncs(p.SSAFunc(fr.Obj)) {
+		k := 0
+		for _, call := range callsIn(f) {
+			fromCtxErr := false
+			for _, a := range call.Call.Args {
+				if cl, ok := stripConv(a).(*ssa.Call); ok && cl.Call.IsInvoke() && cl.Call.Method.Name() == "Err" && namedPath(cl.Call.Value.Type()) == "context.Context" {
+					fromCtxErr = true
+				}
+			}
+			if !fromCtxErr {
+				continue
+			}
+			n++
+			k++
+			// the select that saw the context done: the nearest one that dominates the recording. Only what is tested
+			// between it and the recording can keep the error from being recorded; if the recording sits in a helper
+			// closure without a select of its own, every condition in that closure counts.
+			var sel *ssa.BasicBlock
+			for _, b := range f.Blocks {
+				for _, ins := range b.Instrs {
+					if _, ok := ins.(*ssa.Select); ok && b.Dominates(call.Instr.Block()) && (sel == nil || sel.Dominates(b)) {
+						sel = b
+					}
+				}
+			}
+			var conds []string
+			for _, ge := range guardingEdges(call.Instr.Block()) {
+				ib := ge.If.Block()
+				if sel != nil && !sel.Dominates(ib) {
+					continue // decided before the select: why we are dispatching at all
+				}
+				fromSelect := false
+				sliceBack(ge.If.Cond, func(x ssa.Value) bool {
+					if _, ok := x.(*ssa.Select); ok {
+						fromSelect = true
+					}
+					return true
+				})
+				if !fromSelect {
+					at := ge.If.Cond.Pos()
+					for q := len(ib.Instrs) - 1; q >= 0 && at == token.NoPos; q-- {
+						at = ib.Instrs[q].Pos()
+					}
+					conds = append(conds, p.Pos(at))
+				}
+			}
+			c.Ob(rule, fmt.Sprintf("%s/record#%d", ssaFuncName(f), k), call.Pos(), len(conds) == 0, true, "ctx.Err() is recorded unconditionally once the context is seen done (further conditions: %v)", conds)
+		}
+	}
+	if n == 0 {
+		c.Fail(rule, "anchor", token.NoPos, "no recording of ctx.Err() found in Parallelize")
+	}
+}
